@@ -306,3 +306,17 @@ impl Timer {
         self.0.elapsed().as_secs_f64()
     }
 }
+
+/// `n` tapes drawn from a proptest runner seeded with `seed` (no test is run; used by the
+/// cross-process / cross-build differentials, which need the same inputs in several processes).
+pub fn seeded_tapes(seed: u64, n: usize, len: usize) -> Vec<Vec<u32>> {
+    use proptest::strategy::{Strategy, ValueTree};
+    let cfg = Config {
+        failure_persistence: None,
+        rng_seed: RngSeed::Fixed(seed),
+        ..Config::default()
+    };
+    let mut runner = TestRunner::new(cfg);
+    let strat = vec(any::<u32>(), len);
+    (0..n).map(|_| strat.new_tree(&mut runner).expect("tape").current()).collect()
+}
